@@ -20,6 +20,7 @@ from sim.seams import (ErrstateRaise, LineInterrupter, SimInterrupt, SolveSeam, 
                        ambient_perturb, import_dreye, own_entropy)
 
 ID = "C14"
+USES_PRISTINE = True
 PANEL_PER_MODE = 3
 PER_RUN_CAP = 900
 WALL_CAP = {"quick": 400, "thorough": 6600}
